@@ -193,6 +193,9 @@ def run(tier):
         for d0, src in items:
             for d in ([d0] + rng.sample(derives, 4 if tier == "quick" else 12)):
                 lines.append(f"expand {d} {C.hexs(src)}"); meta.append((d, src, "shape"))
+        # the same items as `macro_rules!` hands them over: every field type inside an invisible group (`$t:ty`)
+        for d0, src in items:
+            lines.append(f"expandg {d0} {C.hexs(src)}"); meta.append((d0, src, "macro-fragment-types"))
         shapes = ["union U { a: u8, b: u16 }", "struct Unit;", "enum Empty {}", "struct Tup();", "struct Named {}", "enum E { A = 1, B(u8) = 2 }",
                   "struct G<'a, T: ?Sized, const N: usize>(&'a T, [u8; N]);", "enum Never { A(core::convert::Infallible) }",
                   "struct R { r#type: u8, r#fn: u8 }", "enum R2 { r#type, r#fn(u8), r#match { r#type: u8 } }", "struct W where u8: Copy;",
